@@ -388,7 +388,7 @@ Ev(e, env, st) ==
          LET v == Lookup(env, e.n) IN IF v = NoneV THEN ErrR("stuck:unbound-" \o e.n, st) ELSE OkR(v, st)
     [] e.k = "block" ->
          LET r == EvStmts(e.body, env, st) IN R(r.sig, r.v, r.st)
-    [] e.k = "mod" ->
+    [] e.k \in {"mod", "import"} ->      \* an imported file is a module whose text lives in another file
          LET r == EvStmts(e.body, env, st) IN
          IF r.sig # "ok" THEN R(r.sig, r.v, r.st)
          ELSE LET own == SubSeq(r.env, Len(env) + 1, Len(r.env))
@@ -623,7 +623,7 @@ Opt(e, bound) == e = NoneV \/ Scoped(e, bound)
 Scoped(e, bound) ==
   CASE e.k \in {"lit", "break", "continue", "mark"} -> TRUE
     [] e.k = "var" -> e.n \in bound
-    [] e.k \in {"block", "mod"} -> ScopedSeq(e.body, bound)
+    [] e.k \in {"block", "mod", "import"} -> ScopedSeq(e.body, bound)
     [] e.k \in {"tup", "arr"} -> ScopedAll(e.es, bound)
     [] e.k = "rep" -> Scoped(e.v, bound) /\ Scoped(e.len, bound)
     [] e.k = "struct" -> \A i \in 1..Len(e.fs) : Scoped(e.fs[i][2], bound)
